@@ -67,6 +67,7 @@ _CURRENT_UID = [None]
 
 @st.composite
 def _uuid(draw):
+    draw(st.just(None))  # keeps this a strategy (the value comes from the per-spec factory)
     return _CURRENT_UID[0]()
 
 
